@@ -283,13 +283,20 @@ InitSingMissing == C("initsingmissing", <<R("r1", SG, 0, "a", "initerr", FALSE, 
 MultiRmReaddTr == C("multirmreaddtr", <<Rmd(Two(R("r1", SG, 0, "a", "multi", FALSE, <<>>), 1), <<2>>),
                                         R("r2", TR, 1, "a", "ctorerr", FALSE, <<>>),
                                         R("r3", SC, 2, "a", "ctorerr", FALSE, <<P("S0"), P("S1")>>)>>)
+MultiRmReaddSg == C("multirmreaddsg", <<Rmd(Two(R("r1", SG, 0, "a", "multi", FALSE, <<>>), 1), <<2>>),
+                                        R("r2", SG, 1, "a", "ctorerr", FALSE, <<>>),
+                                        R("r3", SG, 2, "a", "ctorerr", FALSE, <<P("S0"), P("S1")>>),
+                                        R("r4", SC, 3, "a", "ctorerr", FALSE, <<P("S1")>>)>>)
+AliasRmReaddSg == C("aliasrmreaddsg", <<Rmd(As(R("r1", SG, 0, "a", "ctorerr", FALSE, <<>>), <<"I0", "I1">>), <<2>>),
+                                        As(R("r2", SG, 1, "a", "ctorerr", FALSE, <<>>), <<"I1">>),
+                                        R("r3", SC, 2, "a", "ctorerr", TRUE, <<P("I0"), P("I1")>>)>>)
 MultiRmReaddSc == C("multirmreaddsc", <<Rmd(Two(R("r1", SG, 0, "a", "multi", FALSE, <<>>), 1), <<2>>),
                                         R("r2", SC, 1, "a", "ctorerr", FALSE, <<>>),
                                         R("r3", TR, 2, "a", "ctorerr", FALSE, <<P("S0")>>)>>)
 AliasRmReaddTr == C("aliasrmreaddtr", <<Rmd(As(R("r1", SG, 0, "a", "ctorerr", FALSE, <<>>), <<"I0", "I1">>), <<2>>),
                                         As(R("r2", TR, 1, "a", "ctorerr", FALSE, <<>>), <<"I1">>),
                                         R("r3", SC, 2, "a", "ctorerr", TRUE, <<P("I0"), P("I1")>>)>>)
-CfgRemoved == {InitNamed, InitNamedRm, InitTransient, MultiRmReaddTr, MultiRmReaddSc, AliasRmReaddTr, MultiRmFirstDeep, AliasRmFirstDeep, MultiRmReadd, MultiRmFirst, OutKNRmFirst, MultiRmAll}
+CfgRemoved == {InitNamed, InitNamedRm, InitTransient, MultiRmReaddTr, MultiRmReaddSc, MultiRmReaddSg, AliasRmReaddSg, AliasRmReaddTr, MultiRmFirstDeep, AliasRmFirstDeep, MultiRmReadd, MultiRmFirst, OutKNRmFirst, MultiRmAll}
 CfgRemovedDefective == {RmFirstCaptive, RmFirstCaptiveOut, RmFirstMissing, RmFirstMissingOut, RmFirstCycle}
 
 \* the same transient requested by two FIELDS of one parameter object (plain, named, group), by a scoped consumer,
